@@ -142,10 +142,61 @@ func (e *Engine) inlinable(st *State, fn *ssa.Function, c *FuncContract) bool {
 			}
 		}
 	}
-	if fn.Recover != nil {
+	if fn.Recover != nil && usesRecover(fn, map[*ssa.Function]bool{}) {
+		// (go/ssa gives every function with a defer a recover block; only a deferred recover() makes it reachable)
 		return false
 	}
 	return true
+}
+
+// usesRecover: fn, a function it defers, or one of its closures calls the recover builtin.
+func usesRecover(fn *ssa.Function, seen map[*ssa.Function]bool) bool {
+	if fn == nil || seen[fn] {
+		return false
+	}
+	seen[fn] = true
+	for _, b := range fn.Blocks {
+		for _, in := range b.Instrs {
+			var cc *ssa.CallCommon
+			switch x := in.(type) {
+			case *ssa.Call:
+				cc = &x.Call
+			case *ssa.Defer:
+				cc = &x.Call
+				if x.Call.IsInvoke() {
+					return true // a deferred interface method: unknown
+				}
+			case *ssa.Go:
+				cc = &x.Call
+			}
+			if cc == nil {
+				continue
+			}
+			if bi, ok := cc.Value.(*ssa.Builtin); ok && bi.Name() == "recover" {
+				return true
+			}
+			if _, ok := in.(*ssa.Defer); ok {
+				switch v := cc.Value.(type) {
+				case *ssa.Function:
+					if usesRecover(v, seen) {
+						return true
+					}
+				case *ssa.MakeClosure:
+					if f, ok := v.Fn.(*ssa.Function); ok && usesRecover(f, seen) {
+						return true
+					}
+				default:
+					return true // deferred function value: unknown
+				}
+			}
+		}
+	}
+	for _, a := range fn.AnonFuncs {
+		if usesRecover(a, seen) {
+			return true
+		}
+	}
+	return false
 }
 
 func (e *Engine) doCall(st *State, call *ssa.CallCommon, fnv Val, args []Val, retTo ssa.Value, pos token.Pos, isDefer bool) {
